@@ -34,8 +34,9 @@ FILES = {
     "unique": "1,ann\n2,bob\n3,cy\n3,dee\n",
     "sibling": "1,dan\n2,eve\n4,fay\n",
     "empty": "",
+    "accents": "5,Andr\u00e9\n6,Zo\u00eb\n",  # stored in the data format's default encoding (cp1252), not in that of the CID file
 }
-KINDS = ["accepted", "field", "unique", "sibling", "missing", "directory", "empty"]
+KINDS = ["accepted", "field", "unique", "sibling", "missing", "directory", "empty", "accents"]
 UNTILS = [None, -1, 0, 1, 2, 3]
 _FOLDER = {}
 
